@@ -65,11 +65,15 @@ def mk_var(j):
     from spox import argument
     from spox._type_system import Tensor
 
+    import warnings
+
     if j is None:
         v = argument(Tensor(np.float32, ()))
         v.type = None
         return v
-    return argument(ty_from_json(j))
+    with warnings.catch_warnings():
+        warnings.simplefilter("ignore")
+        return argument(ty_from_json(j))
 
 
 def val_of(arr) -> dict:
@@ -505,6 +509,8 @@ def raw_session(op: Op, kwargs: dict, elems: list[str], ranks: list[int]):
     try:
         so = ort.SessionOptions()
         so.log_severity_level = 4
+        so.intra_op_num_threads = 1
+        so.inter_op_num_threads = 1
         sess = ort.InferenceSession(m.SerializeToString(), so, providers=["CPUExecutionProvider"])
     except Exception as e:  # noqa: BLE001
         sess = ("load-error", str(e)[:200])
